@@ -17,7 +17,8 @@ NOT_DECIDED = ("the functional equivalence itself: that the overlay of pending r
 DECIDED += ("; R4 position bookkeeping: the cursor stored after a cursor read / write is the transfer's own offset plus its result, and no "
             "record is logged for an empty write")
 DECIDED += ("; R5 name-space checks before creation: open creates a file only where no directory has the name, create_dir_all skips only existing "
-            "directories, and positioned writes / seeks do their offset arithmetic without a panicking operator")
+            "directories, positioned writes / seeks do their offset arithmetic without a panicking operator, a truncating open logs its SetLen(0) whatever it created, "
+            "rename tests the destination's parent, and a chain of pending renames is followed to its origin")
 DECIDED += "; R3 sibling replays of the pending log consider the same record kinds (file_len ~ read_file, dir_entries ~ dir_has_children)"
 ASSUMPTIONS = ["Rust's &T / &mut T discipline: a function taking &Fs cannot mutate the tree (Fs has no interior mutability: checked)"]
 
